@@ -37,11 +37,42 @@ def run(ctx):
     r5_stateful_not_shared(ctx)
     r6_rechunk_by_current_row(ctx)
     r7_row_memo(ctx)
+    r9_batch_by_key(ctx)
     # re-encoding must not rewrite the old interaction (Repr compares new['actions'] with old['actions'] to decide whether to rebuild the rewards)
     from . import c04
     c04.r3_copy_before_mutate(ctx, rule="C10.R8", only={"EncodeCatRows"})
     ctx.rules["C10.R8"] = ("EncodeCatRows (used by Repr/Finalize to re-encode actions) rewrites only objects created in the call: nested rows are copied before they are "
                            "rewritten, so the old interaction still holds the old actions when Repr decides whether the rewards must be rebuilt")
+
+
+def r9_batch_by_key(ctx, rule="C10.R9"):
+    """Batch pairs the members' fields by key: interactions are mappings whose insertion order is not part of their value."""
+    ctx.rule(rule, "Batch gathers every batched field by key: each `new[key] = ...` takes its values from `itemgetter(key)` / `<member>[key]` over the batch with the same "
+                   "key variable -- never from the positional order of the members' values() (two interactions with the same fields in a different order would "
+                   "swap rewards and feedbacks, or reward and probability)")
+    fn = ctx.fn(EF, "Batch.filter")
+    n = 0
+    for st in [x for x in ast.walk(fn) if isinstance(x, ast.Assign)]:
+        for t in st.targets:
+            if not (isinstance(t, ast.Subscript) and isinstance(t.value, ast.Name) and isinstance(t.slice, ast.Name)):
+                continue
+            K = t.slice.id
+            n += 1
+            exprs, todo, seen = [], [st.value], set()
+            while todo:
+                e = todo.pop()
+                exprs.append(e)
+                for y in ast.walk(e):
+                    if isinstance(y, ast.Name) and y.id not in seen and y.id != K:
+                        seen.add(y.id)
+                        todo += assigned_value(fn, y.id)
+            by_key = any((isinstance(y, ast.Call) and call_name(y) in ("itemgetter", "operator.itemgetter") and len(y.args) == 1 and isinstance(y.args[0], ast.Name) and y.args[0].id == K)
+                         or (isinstance(y, ast.Subscript) and isinstance(y.slice, ast.Name) and y.slice.id == K and isinstance(y.ctx, ast.Load) and y is not t)
+                         for e in exprs for y in ast.walk(e))
+            positional = any((isinstance(y, ast.Call) and call_tail(y) == "values" and not y.args) or (isinstance(y, ast.Call) and call_name(y) == "methodcaller" and y.args and const_str(y.args[0]) == "values")
+                             for y in ast.walk(fn))
+            ctx.ob(rule, EF, "Batch.filter", st, f"the batched field is gathered by its key `{K}` from every member (no positional use of values())", by_key and not positional)
+    ctx.floor(rule, "batched field stores in Batch.filter", n, 2)
 
 
 CORE = "coba/environments/core.py"
@@ -285,7 +316,7 @@ def r1_targets_follow(ctx, writers):
                        detail={"rebuilt_targets": sorted(covered), "actions_value": unparse(st.value)[:100]}, stmt=f"{t} after: " + norm_stmt(st, 110))
 
 
-def positional_shortcuts(ctx, writers):
+def positional_shortcuts(ctx, writers, rule="C10.R1"):
     """DiscreteReward(<new actions>, <old reward object>.rewards) pairs rewards with actions by position: sound only where the old reward
     object lists exactly the old action list, in the same order."""
     from ..util import all_guards
@@ -301,7 +332,7 @@ def positional_shortcuts(ctx, writers):
                         sides = {unparse(t.left), unparse(t.comparators[0])}
                         if f"{owner}.actions" in sides and any(s_.endswith("['actions']") for s_ in sides - {f"{owner}.actions"}):
                             ok = True
-                ctx.ob("C10.R1", c.rel, f"{c.name}.filter", cc, "rewards taken over by position come from a reward object that lists exactly the old actions in the old order "
+                ctx.ob(rule, c.rel, f"{c.name}.filter", cc, "rewards taken over by position come from a reward object that lists exactly the old actions in the old order "
                        "(guard `<reward>.actions == <old>['actions']`)", ok, stmt="positional rewards shortcut")
     return n
 
@@ -446,6 +477,7 @@ def r4_finalize(ctx):
 
 
 CONTROLS = [
+    ("batch transposed by position", EF, M.replace_expr("Batch.filter", "list(map(itemgetter(key), batch))", "list(list(zip(*[i.values() for i in batch]))[list(first).index(key)])"), "C10.R9"),
     ("DiscreteReward rewards taken over by position unconditionally", EF, M.replace_expr("Repr.filter", "isinstance(old[target], DiscreteReward) and old[target].actions == old['actions']", "isinstance(old[target], DiscreteReward)"), "C10.R1"),
     ("Densify re-represents the logged action under the context switch", EF, M.replace_expr("Densify.filter", "self._action and 'action' in new", "self._context and 'action' in new"), "C10.R3"),
     ("catset rewrites the nested action in place", "coba/pipes/rows.py", M.replace_expr("EncodeCatRows._encode_collection", "list(row) if isinstance(row, tuple) else copy(row)", "list(row) if isinstance(row, tuple) else row", nth=0), "C10.R8"),
